@@ -321,7 +321,9 @@ impl Real {
 
 // ------------------------------------------------------------------ generators
 
-const TOKENS: [&str; 11] = ["a", "b", "", "0", "1", "a~1b", "m~0n", "x", "2", "reg", "reg"];
+// (includes tokens whose meaning depends on unescaping in one left-to-right pass:
+// "~01" is the key "~1", never "/"; "~10" is "/0"; "~00" is "~0"; "~11" is "/1")
+const TOKENS: [&str; 18] = ["a", "b", "", "0", "1", "a~1b", "m~0n", "x", "2", "reg", "reg", "~01", "~1", "~10", "~00", "~11", "a~01", "~0~1"];
 
 fn gen_pointer(small: bool) -> String {
     if small {
